@@ -1,5 +1,7 @@
 """C10 Catalog-based consistency tests compute the documented statistics."""
+import contextlib
 import hashlib
+import io
 import itertools
 import math
 import os
@@ -46,7 +48,7 @@ def cases(tier, seed):
     for chunk in space.chunks(fcs, 40):
         yield dict(kind='history', forecasts=chunk)
     # structured LARGE forecasts and observations (size-dependent paths): many synthetic catalogs, many events
-    for J in (12, 40, 150):
+    for J in (10, 11, 12, 40, 101, 150):
         for pattern in (0, 1):
             yield dict(kind='large', J=J, pattern=pattern)
     # calibration test: every sub-sequence (length 1..4) of a fixed family of six evaluation results (one of them not-valid)
@@ -266,7 +268,7 @@ def compare(site, res, want, cls, rep, failures, hsh):
         failures.append(Fail(f'{site}|quantile|{cls}', f'quantile={res.quantile}, empirical probabilities give {want["q"]} (from the reference statistics) / {q_own} (from the reported statistics)', rep))
 
 
-def run_tests(fc, forecast, obs_types, reg, origins, mags, failures, hsh, which, tag):
+def run_tests(fc, forecast, obs_types, reg, origins, mags, failures, hsh, which, tag, default_verbosity=False):
     from csep.core import catalog_evaluations as ce
     ref = Ref(forecast)
     obs = fixtures.catalog(events(obs_types, origins, mags, 500), region=reg, name='obs')
@@ -283,7 +285,13 @@ def run_tests(fc, forecast, obs_types, reg, origins, mags, failures, hsh, which,
             continue
         site = f'catalog_evaluations.{name}' + ('' if tag == 'mem' else f'[{tag}]')
         try:
-            res = fn(fc, obs, verbose=False)
+            if default_verbosity:
+                # the call as documented, without the verbose keyword (progress messages go to a discarded stream)
+                site += '[default-verbosity]'
+                with contextlib.redirect_stdout(io.StringIO()):
+                    res = fn(fc, obs)
+            else:
+                res = fn(fc, obs, verbose=False)
         except Exception as e:
             failures.append(Fail(f'{site}|{type(e).__name__}|{cls}', f'{type(e).__name__}: {e} forecast={forecast} obs={obs_types}', rep))
             continue
@@ -382,8 +390,9 @@ def run_case(case):
             forecast = [[(0 if (i + j) % 2 else 3) for i in range((j * 7) % 12)] for j in range(J)]     # sizes 0..11, only two event types
         fc = mem_forecast(forecast, reg, origins, mags)
         for obs_types in ([], [2], [0, 1, 2, 3, 4, 5, 0], [3] * 9 + [0] * 6, [1, 5] * 10):
-            e, cls = run_tests(fc, forecast, obs_types, reg, origins, mags, failures, hsh, None, 'mem')
-            evals += e
+            for dv in (False, True):
+                e, cls = run_tests(fc, forecast, obs_types, reg, origins, mags, failures, hsh, None, 'mem', default_verbosity=dv)
+                evals += e
             states += 1
             nontriv += 1
         for f in failures:
